@@ -24,6 +24,9 @@ def run(ck: Checker) -> None:
     ck.guard("R-PRESENCE", lambda: T.r_presence(ck))
     ck.guard("R-ENUM-SHAPE", lambda: T.r_enum_shape(ck))
     ck.guard("R-GEN-PURE", lambda: T.r_gen_pure(ck))
+    ck.guard("R-TYPES-CACHE", lambda: T.r_types_cache(ck))
+    from .c11 import r_child_kind
+    ck.guard("R-CHILD-KIND", lambda: r_child_kind(ck))
     ck.require_count("R-FLAGS-TT", 16)
     ck.require_count("R-ACCESSOR-SIBLING", 17)
     ck.require_count("R-ORDER-KEY", 8)
